@@ -3,20 +3,23 @@ import Reduino.Lang.Syntax
 namespace Reduino.Lang.Py
 
 /-- Python expression evaluation: bools are ints in arithmetic and comparisons (`& | ^` of two bools is a bool), `and`/`or` return an OPERAND,
-    `not` returns a bool, evaluation is left to right and short-circuiting. -/
+    `not` returns a bool, evaluation is left to right and short-circuiting.  Strings (W13): `+` concatenates two strings, a string
+    operand of any other arithmetic (`Val.num`, `BinOp.pyEval`) is a TypeError, comparisons as `CmpOp.pyEval`. -/
 def eval (s : Store) : Expr → Except Err Val
   | .int n => .ok (.int n)
   | .bool b => .ok (.bool b)
+  | .str t => .ok (.str t)
   | .var x => match s.get x with | some v => .ok v | none => .error .nameError
   | .bin op a b => do let x ← eval s a; let y ← eval s b; op.pyEval x y
-  | .neg a => do let x ← eval s a; pure (.int (-x.toInt))
-  | .cmp op a b => do let x ← eval s a; let y ← eval s b; pure (.bool (op.eval x.toInt y.toInt))
+  | .neg a => do let x ← eval s a; let n ← x.num; pure (.int (-n))
+  | .cmp op a b => do let x ← eval s a; let y ← eval s b; let r ← op.pyEval x y; pure (.bool r)
   | .and a b => do let x ← eval s a; if x.truthy then eval s b else pure x
   | .or a b => do let x ← eval s a; if x.truthy then pure x else eval s b
   | .not a => do let x ← eval s a; pure (.bool (!x.truthy))
   | .ite c a b => do let x ← eval s c; if x.truthy then eval s a else eval s b
-  | .abs a => do let x ← eval s a; pure (.int x.toInt.natAbs)
-  | .mm k a b => do let x ← eval s a; let y ← eval s b; pure (k.pick x y)
+  | .abs a => do let x ← eval s a; let n ← x.num; pure (.int n.natAbs)
+  | .mm k a b => do let x ← eval s a; let y ← eval s b; k.pyPick x y
+  | .toStr a => do let x ← eval s a; let t ← x.pyStr; pure (.str t)
 
 /-- the right-hand sides of a tuple assignment, left to right, all in the same (old) store -/
 def evalList (s : Store) : List Expr → Except Err (List Val)
@@ -31,10 +34,12 @@ structure St where
   trace : List Ev      -- reversed
   flow : Flow := .normal
 
-/-- what `mon.write(v)` sends (the fragment only writes ints; a bool would print as True/False) -/
+/-- what `mon.write(v)` sends: the text `str(v)` — decimal digits for an int, the characters of a string.  Bools are kept out of the
+    model (`True`/`False` under CPython, 1/0 on the device): reported as `typeError`, so no theorem speaks about such a run -/
 def writeEv (v : Val) : Except Err Ev :=
   match v with
-  | .int n => .ok (.write n)
+  | .int n => .ok (.write (toString n))
+  | .str s => .ok (.write s)
   | .bool _ => .error .typeError
 
 def exec : Nat → Stmt → St → Except Err St
@@ -69,11 +74,13 @@ def exec : Nat → Stmt → St → Except Err St
       else pure st
     | .forRange i n body => do
       let nv ← eval st.store n
-      forLoop fuel i nv.toInt 0 body st
+      let k ← nv.num                  -- `range("a")` is a TypeError
+      forLoop fuel i k 0 body st
     | .write e => do let v ← eval st.store e; let ev ← writeEv v; pure { st with trace := ev :: st.trace }
     | .sleep e => do
       let v ← eval st.store e
-      if v.toInt < 0 then .error .negativeDelay else pure { st with trace := .delay v.toInt :: st.trace }
+      let ms ← v.num                  -- `sleep("a")` is a TypeError
+      if ms < 0 then .error .negativeDelay else pure { st with trace := .delay ms :: st.trace }
     | .brk => pure { st with flow := .broke }
 where
   /-- `for i in range(n)`: `n` was evaluated once; `i` is (re)bound from the iterator at every iteration -/
